@@ -149,6 +149,8 @@ def replay_doc(ctx, doc, n, variant=None):
         elif fn == "pcDelta_grouped":
             kw = dict(bins=0) if opt["edges"] == [] else dict(bins=list(opt["edges"]), normalize=opt["norm"])
             ctx.case(dict(fn=fn, tab=tab, **kw), nontrivial=ngroups > 1)
+            if zlib.crc32(str(n + 13).encode()) % 2:
+                kw["maxseqs"] = int(df.groupby(by).size().max())        # caps each group: nothing to discard
             got = prs.pcDelta_grouped(df, by, "CDR3B", **kw)
             if np.size(got) and len(got) == len(res):
                 # rows are identified by their group label (the row order is not part of the property)
@@ -165,22 +167,25 @@ def replay_doc(ctx, doc, n, variant=None):
             if ngroups < 2:
                 return
             G = len(res)
+            # every second behaviour: maxseqs = size of the largest group. It caps each COLLECTION handed to pcDelta (here: each group),
+            # so nothing is discarded and the result is the one without maxseqs - although the table as a whole has more rows
+            kwm = dict(maxseqs=int(df.groupby(by).size().max())) if zlib.crc32(str(n + 11).encode()) % 2 else {}
             if opt["edges"] == []:
-                got = prs.pcDelta_grouped_cross(df, by, "CDR3B", bins=0)
+                got = prs.pcDelta_grouped_cross(df, by, "CDR3B", bins=0, **kwm)
                 want = [[res[i][j][0] for j in range(G)] for i in range(G)]
                 if not grid_ok(got.values, want):
                     diag_only = grid_ok([[got.values[i][j] for j in range(G) if j != i] for i in range(G)],
                                         [[want[i][j] for j in range(G) if j != i] for i in range(G)])
-                    viol("square/" + ("diagonal_wrong" if diag_only else "wrong_value"), f"= {got.values.tolist()} want {want}")
-                got = prs.pcDelta_grouped_cross(df, by, "CDR3B", condensed=True, bins=0)
+                    viol("square/" + ("diagonal_wrong" if diag_only else "wrong_value"), f"{kwm} = {got.values.tolist()} want {want}")
+                got = prs.pcDelta_grouped_cross(df, by, "CDR3B", condensed=True, bins=0, **kwm)
                 wantc = [[res[i][j][0]] for i in range(G) for j in range(i + 1, G)]
                 if not grid_ok(np.asarray(got.values, dtype=float).reshape(len(wantc), -1), wantc):
                     viol("condensed/wrong_value/bins=0", f"= {got.values.tolist()} want {wantc}")
             else:
-                got = prs.pcDelta_grouped_cross(df, by, "CDR3B", condensed=True, bins=list(opt["edges"]), normalize=opt["norm"])
+                got = prs.pcDelta_grouped_cross(df, by, "CDR3B", condensed=True, bins=list(opt["edges"]), normalize=opt["norm"], **kwm)
                 wantc = [res[i][j] for i in range(G) for j in range(i + 1, G)]
                 if not grid_ok(np.asarray(got.values, dtype=float).reshape(len(wantc), -1), wantc):
-                    viol("condensed/wrong_value", f"= {got.values.tolist()} want {wantc}")
+                    viol("condensed/wrong_value", f"{kwm} = {got.values.tolist()} want {wantc}")
                 # "... for each pair of groups THEIR two-collection pcDelta" with a metric that is not symmetric (insertions dearer than
                 # deletions): the entry of (g, h) is pcDelta(group g, group h, ...), itself bound to the specification by C05
                 from pyrepseq.metric import WeightedLevenshtein
